@@ -7,6 +7,7 @@ import (
 	"go/ast"
 	"go/token"
 	"go/types"
+	"os"
 	"sort"
 	"strings"
 
@@ -63,6 +64,8 @@ func (w *World) reachableModuleFuncs(root *ssa.Function) ([]*FuncInfo, map[*ssa.
 }
 
 func runC07(w *World, r *Report) {
+	r.Rule("storedlen", "a size function that returns a length field read from the wire is bounded by the input in the decoder", 5)
+	storedLenRule(w, r, "storedlen")
 	r.Rule("stateless", "the parser keeps no package-level state that a frame can change (a cache, a lock left held by a recovered panic, a shared decoding target): what one frame does cannot wedge or corrupt the parsing of the next", 8)
 	importStateless(w, r, "stateless")
 	r.Rule("contain", "the entry point recovers from decoding panics and rejects headerless input", 1)
@@ -702,4 +705,217 @@ func recoverDefer(w *World, fi *FuncInfo, ds *ast.DeferStmt, errObj types.Object
 		return false, "the deferred helper panics again (" + repanics + ") for some recovered values: those panics leave the parser instead of becoming an error"
 	}
 	return true, ""
+}
+
+// storedLenRule: list decoders advance by the size the decoded element reports, and containers add those
+// sizes up in 16 bits. An element whose size function hands back a length field that its decoder took from
+// the wire reports whatever the frame claims; unless the decoder refuses a claim larger than the bytes it
+// was given, the sum in an enclosing container wraps (to 0: the outer loop stops advancing) for a frame of
+// a few dozen bytes. For every kind whose size term is a stored field that its decoder fills from the
+// input, the decoder's success facts must give field <= len(input) (or size <= len(input)).
+func storedLenRule(w *World, r *Report, rule string) {
+	for _, k := range w.KindsL {
+		if k.Len == nil || k.Unmarshal == nil || !k.OwnUnmarshal || !(strings.HasPrefix(k.Name, "openflow13.") || strings.HasPrefix(k.Name, "common.")) {
+			continue
+		}
+		ls := w.LenSummary(k)
+		dfi := w.FuncOf(k.Unmarshal)
+		if ls == nil || ls.Term == nil || dfi == nil {
+			continue
+		}
+		// the stored integer fields the size depends on
+		var stored []string
+		ls.Term.HasAtom(func(a *Atom) bool {
+			if a.Kind == "val" && strings.HasPrefix(a.Path, "$.") {
+				stored = append(stored, a.Path)
+			}
+			return false
+		})
+		if len(stored) == 0 {
+			continue
+		}
+		// the mechanism is "the size IS the stored length" (possibly rounded up to the alignment): a size that
+		// is computed from content and merely uses small decoded fields is bounded by what was decoded
+		if core := stripRoundWrap(ls.Term); core.SingleAtom() == nil || core.SingleAtom().Kind != "val" || !core.Sub(FromAtom(core.SingleAtom())).IsZero() {
+			continue
+		}
+		ds := w.Interpret(dfi, "decode")
+		if ds == nil {
+			continue
+		}
+		fromWire := map[string]bool{}
+		for _, rd := range ds.Reads {
+			if (rd.Kind == "int" || rd.Kind == "byte") && strings.HasPrefix(rd.Src, "val($") {
+				fromWire[rd.Src[4:len(rd.Src)-1]] = true
+			}
+		}
+		// fields of embedded or freshly allocated children (the header a child decoder filled): by the value
+		// the field holds at a successful return
+		for _, rt := range ds.Rets {
+			if rt.IsErr || rt.St == nil {
+				continue
+			}
+			fields := map[string]Val{}
+			canonFields(rt.St, "$", "$", fields, 0)
+			for p, v := range fields {
+				// anything but a constant: a value read here, or left by a child decoder that filled the object
+				if iv, ok := v.(IntV); ok && iv.T != nil && !iv.T.IsConst() {
+					fromWire[p] = true
+				}
+			}
+		}
+		// … or the field lies inside a part (the embedded header) that a child decoder fills from the input
+		childKinds := map[string]bool{}
+		for _, rd := range ds.Reads {
+			if rd.Kind == "child" {
+				if i := strings.LastIndex(rd.Src, ":"); i >= 0 {
+					childKinds[strings.TrimSuffix(rd.Src[i+1:], ")")] = true
+				}
+			}
+		}
+		for _, f := range stored {
+			t := types.Type(k.Named)
+			for _, name := range strings.Split(strings.TrimPrefix(f, "$."), ".") {
+				if p, ok := t.Underlying().(*types.Pointer); ok {
+					t = p.Elem()
+				}
+				st, ok := t.Underlying().(*types.Struct)
+				if !ok {
+					break
+				}
+				var ft types.Type
+				for i := 0; i < st.NumFields(); i++ {
+					if st.Field(i).Name() == name {
+						ft = st.Field(i).Type()
+					}
+				}
+				if ft == nil {
+					break
+				}
+				t = ft
+				if ck := w.KindOfType(t); ck != nil && childKinds[ck.Name] {
+					fromWire[f] = true
+				}
+			}
+		}
+		ens := w.Ensures(k.Unmarshal)
+		sort.Strings(stored)
+		if os.Getenv("OFV_DEBUG") == "storedlen" {
+			fmt.Println(k.Name, stored, fromWire)
+		}
+		seen := map[string]bool{}
+		for _, f := range stored {
+			if seen[f] || !fromWire[f] {
+				continue
+			}
+			seen[f] = true
+			// a one-byte field cannot make a 16-bit sum wrap by itself; the rule is about 16-bit lengths
+			if max := fieldMax(k, f); max > 0 && max <= 255 {
+				continue
+			}
+			pos := w.Pos(dfi.Decl.Pos())
+			var cens []Fact
+			for _, e := range ens {
+				cens = append(cens, Fact{L: collapseRoundWrap(e.L), R: collapseRoundWrap(e.R), Src: e.Src, Cond: e.Cond})
+			}
+			ens = cens
+			if w.ProveX(ValOf(f), LenOf("P"), ens) || w.ProveX(collapseRoundWrap(ls.Term), LenOf("P"), ens) || w.ProveX(LenCall("$", k.Name), LenOf("P"), ens) || w.ProveX(ls.Term, LenOf("P"), ens) {
+				r.OK(rule, k.Name, f, pos, "the size function returns a length the decoder read from the input, and the decoder accepts it only when it does not exceed the bytes it was given", true)
+			} else {
+				r.Fail(VViolation, rule, k.Name, f, pos, fmt.Sprintf("the reported size (%v) depends on %s, which the decoder takes from the input without comparing it with the bytes it was given: a frame can make the element report up to 65535 bytes, and the 16-bit sum of sizes in an enclosing container wraps — a list decoder stepping by that sum stops advancing", ls.Term, f))
+			}
+		}
+	}
+}
+
+// fieldMax: the largest value of an integer field by its declared type (0 when unknown).
+func fieldMax(k *Kind, path string) int64 {
+	t := types.Type(k.Named)
+	for _, name := range strings.Split(strings.TrimPrefix(path, "$."), ".") {
+		if p, ok := t.Underlying().(*types.Pointer); ok {
+			t = p.Elem()
+		}
+		s, ok := t.Underlying().(*types.Struct)
+		if !ok {
+			return 0
+		}
+		found := false
+		for i := 0; i < s.NumFields(); i++ {
+			if s.Field(i).Name() == name {
+				t, found = s.Field(i).Type(), true
+				break
+			}
+		}
+		if !found {
+			return 0
+		}
+	}
+	if b, ok := t.Underlying().(*types.Basic); ok {
+		switch b.Kind() {
+		case types.Uint8, types.Int8:
+			return 255
+		case types.Uint16, types.Int16:
+			return 65535
+		}
+	}
+	return 0
+}
+
+// roundWrapInner: for round8(-7 + wrap[T](7 + X)) — the rendering of ((x+7)/8)*8 in T arithmetic — returns X.
+func roundWrapInner(a *Atom) *Term {
+	if a.Kind != "round8" || len(a.Sub) != 1 {
+		return nil
+	}
+	in := a.Sub[0]
+	wa := in.AddC(7).SingleAtom()
+	if wa == nil || wa.Kind != "wrap" || len(wa.Sub) != 1 || !in.AddC(7).Sub(FromAtom(wa)).IsZero() {
+		return nil
+	}
+	return wa.Sub[0].AddC(-7)
+}
+
+// collapseRoundWrap: rounding up to a multiple of 8 in 16-bit arithmetic is idempotent — the result of one
+// rounding is a multiple of 8 not above 65528, so adding 7 again cannot wrap.
+func collapseRoundWrap(t *Term) *Term {
+	if t == nil {
+		return nil
+	}
+	for i := 0; i < 8; i++ {
+		changed := false
+		t = t.Map(func(a *Atom) *Term {
+			x := roundWrapInner(a)
+			if x == nil {
+				return nil
+			}
+			if ia := x.SingleAtom(); ia != nil && x.Sub(FromAtom(ia)).IsZero() && roundWrapInner(ia) != nil {
+				changed = true
+				return x
+			}
+			return nil
+		})
+		if !changed {
+			break
+		}
+	}
+	return t
+}
+
+// stripRoundWrap removes every layer of rounding and wrapping around a term.
+func stripRoundWrap(t *Term) *Term {
+	for i := 0; i < 8; i++ {
+		a := t.SingleAtom()
+		if a == nil || !t.Sub(FromAtom(a)).IsZero() {
+			return t
+		}
+		if x := roundWrapInner(a); x != nil {
+			t = x
+			continue
+		}
+		if a.Kind == "wrap" || a.Kind == "round8" {
+			t = a.Sub[0]
+			continue
+		}
+		return t
+	}
+	return t
 }
